@@ -1,4 +1,5 @@
 import Ldlm.Proofs.Table
+import Ldlm.Proofs.CoreDead
 /-!
 C02 — Lock/TryLock/Unlock are linearizable to a counting lock with keys.
 
@@ -19,6 +20,9 @@ threads, any schedule (`List Act`).  Every action emits the operations of the at
   reported busy (`try_refused_only_when_full`), no unit is lost or duplicated.
 * `unlock_at_most_once` — a successful Unlock removes its key; with distinct keys a second Unlock of
   it fails.
+* `unlock_exactly_once` — sequential server model M2, every reachable state and EVERY continuation of
+  the history (requests, expiries, session ends, collections, restarts): after a successful Unlock of
+  (name, key) the pair is never held again and every further Unlock with it fails.
 After the repair of D14/W1 (`fix:` 066861c) `Lock.Unlock` is one critical section and the model has
 no "key removed, unit not yet released" state: the W1 history is not a run of the model any more.
 -/
@@ -81,5 +85,25 @@ example : (runObj [120] o0 sched).map (·.2) =
     some [.grant [120] [107, 49], .unlock [120] [107, 49] true, .grant [120] [107, 50]] := by decide
 example : AllSide [120] o0 sched := by
   simp [AllSide, sched, o0, stepObj, sideOk, Obj.freeUnit]
+
+/-! ### each granted key unlocks successfully exactly once (M2, for every continuation) -/
+section
+open Ldlm.Core
+variable {M : Type} {o : MapOps M} {c : Cfg}
+
+theorem unlock_exactly_once (ho : o.Lawful) (hinj : KeysInjective c) (ops ops' : List Op) (n k : Core.Str) (sid sid' : Option Sid)
+    (hok : (Core.step o c (Core.run o c ops) (.unlock sid n k)).2.ok = true) :
+    let t := ops'.foldl (fun s op => (Core.step o c s op).1) (Core.step o c (Core.run o c ops) (.unlock sid n k)).1
+    ¬ held o t n k ∧ (Core.step o c t (.unlock sid' n k)).2.ok = false :=
+  unlock_once ho hinj ops ops' sid sid' hok
+
+/-- non-vacuity: a key is granted, unlocked, the name is taken again and the server restarts; the old key still fails -/
+def cfgU : Cfg := { gcInterval := 0, gcMinIdle := 0, dlt := 600 * sec, noClear := false, hasFile := true,
+                    genKey := fun n => 75 :: natDigits n }
+def su : Core.Str := [115, 49]
+example : (Core.step flatOps cfgU (Core.run flatOps cfgU [.connect su, .tryLock (some su) [97] none none]) (.unlock (some su) [97] (cfgU.genKey 0))).2.ok = true := by decide
+example : (Core.step flatOps cfgU (Core.run flatOps cfgU [.connect su, .tryLock (some su) [97] none none, .unlock (some su) [97] (cfgU.genKey 0),
+    .tryLock (some su) [97] none none, .restart]) (.unlock (some su) [97] (cfgU.genKey 0))).2.ok = false := by decide
+end
 
 end Ldlm.Props.C02
